@@ -52,7 +52,7 @@ def main(argv=None):
         if a.no_lean:
             lean = {"ok": True, "build_ok": True, "theorems": [], "axioms": {}, "bad_axioms": {}, "hygiene": []}
         else:
-            lean = common.lean_obligations(prop, getattr(mod, "EXTRA_LEAN_MODULES", ()))
+            lean = common.lean_obligations(prop, getattr(mod, "EXTRA_LEAN_MODULES", ()), getattr(mod, "EXTRA_THEOREMS", ()))
         extra = {}
         if a.tier == "thorough" and not a.no_lean and lean["build_ok"]:
             lc = common.leanchecker(prop)
